@@ -83,6 +83,7 @@ var lineKinds = []string{
 	"Alpha: one\n", "X-Cnf_Visible.Pkg+name:two\n", "Gamma : x:y  \n", "Alpha: again\n", "Empty:\n", "CR: v\r\n",
 	" cont\n", " .\n", "\tTabbed\n", "   indented  \n", "  .\n", " \n", " crcont\r\n", " . \n",
 	"\n", "\r\n", "# comment\n", "NoColonHere\n", " # text of a folded value\n", ": no name\n",
+	"ALPHA: recased\n",
 }
 
 // readerMachine builds a machine whose bufio reader plays `lines`.
@@ -105,6 +106,18 @@ func readerMachine(p *Prog, lines []string) *Machine {
 		}
 		return lines[n], true
 	})
+	m.PeekRest = func(st *State) string {
+		n := 0
+		for _, e := range st.Effects {
+			if e == "read" {
+				n++
+			}
+		}
+		if n >= len(lines) {
+			return ""
+		}
+		return strings.Join(lines[n:], "")
+	}
 	return m
 }
 
@@ -188,7 +201,8 @@ func invariantOK(a *refPara) string {
 }
 
 func checkC07(p *Prog, rp *Report) {
-	rp.Explanation = "C07-LINES: (*ParagraphReader).Next is interpreted abstractly with the buffered reader replaced by an oracle playing every script of up to 3 lines over 20 line kinds (field lines with/without blanks, extra colons, empty value, repeated name, CRLF; continuation lines with space/tab, ' .', indented dot, inner indentation, trailing blanks, whitespace only, text starting with '#'; blank lines LF/CRLF; comment; line without colon), each also with the final newline missing, calling Next until end of input; paragraphs and errors are compared with a deb822 reference model (scripts of length 3 reach every combination of reader state class x line kind: no paragraph yet / last field single-line / last field folded). C07-INV: every paragraph returned on any script lists exactly its fields, each once. C07-ALL: All() returns the paragraphs until io.EOF, or an empty list with the first other error. C07-ONE: only Next (and the clearsign decoder before it) reads from the reader; All, decode, decodeSlice and Decoder.Decode obtain paragraphs through Next. C07-LONGLINES: lines are read with ReadString('\\n') (no length limit)."
+	defer stateRule(p, rp, "C07-STATE", p.Func("control", "NewParagraphReader"), p.Method("control", "ParagraphReader", "Next"), p.Method("control", "ParagraphReader", "All"))
+	rp.Explanation = "C07-LINES: (*ParagraphReader).Next is interpreted abstractly with the buffered reader replaced by an oracle playing every script of up to 3 lines over 21 line kinds (field lines with/without blanks, extra colons, empty value, repeated name, CRLF; continuation lines with space/tab, ' .', indented dot, inner indentation, trailing blanks, whitespace only, text starting with '#'; blank lines LF/CRLF; comment; line without colon), each also with the final newline missing, calling Next until end of input; paragraphs and errors are compared with a deb822 reference model (scripts of length 3 reach every combination of reader state class x line kind: no paragraph yet / last field single-line / last field folded). C07-INV: every paragraph returned on any script lists exactly its fields, each once. C07-ALL: All() returns the paragraphs until io.EOF, or an empty list with the first other error. C07-ONE: only Next (and the clearsign decoder before it) reads from the reader; All, decode, decodeSlice and Decoder.Decode obtain paragraphs through Next. C07-LONGLINES: lines are read with ReadString('\\n') (no length limit)."
 	rp.NotDecided = "equality with the reference for documents whose lines fall outside the 18 kinds in a way the kinds do not represent (the reader's decisions depend only on: first byte, presence of ':', content after trimming being \".\" or empty); bufio.Reader itself."
 	rp.Trusted = []string{"go/types, go/ssa", "bufio.Reader.ReadString contract (data + io.EOF on a final partial line)", "the deb822 reference model in c07.go; convention: an empty first line is not part of a folded value"}
 
@@ -222,6 +236,16 @@ func checkC07(p *Prog, rp *Report) {
 	// lines far longer than any reader buffer
 	long := strings.Repeat("lib-x (>= 1.0), ", 600)
 	scripts = append(scripts, []string{"Package: p\n", "Depends: " + long + "\n", " " + long + "\n", "Section: s\n", "\n", "Package: q\n"})
+	// field, continuation and comment lines around the size of a reader buffer (4096 bytes) and beyond
+	for _, n := range []int{4087, 4088, 4089, 4095, 4096, 4097, 8192, 9000} {
+		x := strings.Repeat("x", n)
+		scripts = append(scripts,
+			[]string{"Alpha: " + x + "\n", "Beta: two\n"},
+			[]string{"Alpha: one\n", " " + x + "\n", "Beta: two\n"},
+			[]string{"#" + x + "\n", "Alpha: one\n"},
+			[]string{"Alpha: one\n", "#" + x + "\n", "Beta: two\n"},
+			[]string{"Alpha: " + x})
+	}
 	runScript := func(script []string) {
 		nscripts++
 		m := readerMachine(p, script)
@@ -229,6 +253,20 @@ func checkC07(p *Prog, rp *Report) {
 		rid := st.alloc(types.Typ[types.Int], OpaqueV{"bufio"})
 		prID := st.alloc(prT, mkStruct(prT, map[string]Val{roleField(prT, "*bufio.Reader", "reader"): Ptr{Obj: rid}}))
 		refPos := 0
+		// paragraphs handed out earlier must not change when the next one is read
+		type handed struct {
+			v    Val
+			then string
+		}
+		var earlier []handed
+		defer func() {
+			for i, h := range earlier {
+				now, why := paraOf(st, p, h.v)
+				if why == "" && now.String() != h.then && invProblem == "" {
+					invProblem = fmt.Sprintf("input %q: paragraph %d was returned as %s and reads %s after later calls of Next: the paragraphs share storage", strings.Join(script, ""), i+1, h.then, now)
+				}
+			}
+		}()
 		for call := 0; call < 6; call++ {
 			st.Status = stRun
 			st.push(next, []Val{Ptr{Obj: prID}}, nil)
@@ -273,6 +311,7 @@ func checkC07(p *Prog, rp *Report) {
 				}
 				return
 			}
+			earlier = append(earlier, handed{tv.E[0], got.String()})
 			if iv := invariantOK(got); iv != "" && invProblem == "" {
 				invProblem = fmt.Sprintf("input %q: %s", strings.Join(script, ""), iv)
 			}
@@ -301,7 +340,7 @@ func checkC07(p *Prog, rp *Report) {
 		lines.undecided("control.ParagraphReader.Next", pos, undec)
 		inv.undecided("control.ParagraphReader.Next", pos, undec)
 	default:
-		lines.check(mismatch == "", "control.ParagraphReader.Next", pos, fmt.Sprintf("%d scripts (every sequence of up to %d of 20 line kinds, with and without the final newline), all calls of Next until end of input agree with the reference", nscripts, map[bool]int{false: 3, true: 4}[rp.Tier == "thorough"]), mismatch)
+		lines.check(mismatch == "", "control.ParagraphReader.Next", pos, fmt.Sprintf("%d scripts (every sequence of up to %d of 21 line kinds, with and without the final newline), all calls of Next until end of input agree with the reference", nscripts, map[bool]int{false: 3, true: 4}[rp.Tier == "thorough"]), mismatch)
 		inv.check(invProblem == "", "control.ParagraphReader.Next", pos, fmt.Sprintf("invariant holds for every paragraph returned on %d scripts, malformed ones included", nscripts), invProblem)
 	}
 
@@ -429,7 +468,8 @@ func checkC07(p *Prog, rp *Report) {
 			nextReads = true
 		}
 	}
-	one.check(okReaders && nextReads, "control.ParagraphReader:buffered-reader", pos, "read only by Next and its helpers (and by the constructor's clearsign decoder before the first Next)", fmt.Sprintf("the reader is also read by %v: consumers would see different sequences", extra))
+	_ = nextReads // where the reads happen is a matter of style (a line source built once and called by Next is fine)
+	one.check(okReaders, "control.ParagraphReader:buffered-reader", pos, "read only by Next and its helpers (and by the constructor's clearsign decoder before the first Next)", fmt.Sprintf("the reader is also read by %v: consumers would see different sequences", extra))
 	// the consumers: All and the decoder entry point must reach Next (they have no other way to paragraphs,
 	// since nothing but Next reads the reader)
 	for _, c := range []struct {
@@ -448,26 +488,15 @@ func checkC07(p *Prog, rp *Report) {
 		}
 		one.check(reaches, c.key, p.Pos(c.fn.Pos()), "obtains paragraphs by calling Next", "does not reach Next: it reads paragraphs some other way")
 	}
-	// C07-LONGLINES
+	// C07-LONGLINES: decided by C07-LINES on the scripts with lines of 4087 to 9000 bytes (the reader oracle hands
+	// out long lines the way bufio does: ReadLine and ReadSlice in pieces of 4096 bytes, ReadString / ReadBytes whole)
 	ll := rp.Rule("C07-LONGLINES", "lines are read without a length limit", 1)
-	okLL := false
-	why := "Next does not read its lines with ReadString('\\n') / ReadBytes('\\n')"
-	for _, f := range reachableRepoFuncs(next) {
-		for _, c := range allCalls(f) {
-			switch n := calleeName(c.Common()); {
-			case n == "(*bufio.Reader).ReadString" || n == "(*bufio.Reader).ReadBytes":
-				okLL = true
-			}
-		}
+	switch {
+	case undec != "":
+		ll.undecided("control.ParagraphReader.Next", pos, undec)
+	case strings.Contains(mismatch, strings.Repeat("x", 64)) || strings.Contains(mismatch, "lib-x (>= 1.0), lib-x"):
+		ll.bad("control.ParagraphReader.Next", pos, "a line longer than the reader's buffer is not read as one line: "+clip(mismatch, 300), nil)
+	default:
+		ll.ok("control.ParagraphReader.Next", pos, "field, continuation and comment lines of 4087 to 9000 bytes and a 9 600 byte dependency list are read as single lines (C07-LINES scripts)")
 	}
-	for _, f := range reachableRepoFuncs(next) {
-		for _, c := range allCalls(f) {
-			n := calleeName(c.Common())
-			if n == "(*bufio.Reader).ReadLine" || strings.HasPrefix(n, "(*bufio.Scanner)") || n == "(*bufio.Reader).ReadSlice" || n == "bufio.NewScanner" {
-				okLL = false
-				why = shortFn(n) + " hands out long lines in pieces (or fails on them): a field line longer than the buffer is split"
-			}
-		}
-	}
-	ll.check(okLL, "control.ParagraphReader.Next", pos, "lines are read with ReadString / ReadBytes (no length limit)", why)
 }
